@@ -1725,7 +1725,13 @@ func r7C01(c *Ctx) {
 	// results of GetScaledValueFromIntOrPercent (a percentage string has IntValue() == 0)
 	n := 0
 	bad := ""
-	for _, b := range vf.Blocks {
+	var vblocks []*ssa.BasicBlock
+	for _, g := range samePkgClosure(p, vf) { // the check may live in a helper of the validator
+		if g == vf || strings.HasPrefix(g.Name(), "validate") {
+			vblocks = append(vblocks, g.Blocks...)
+		}
+	}
+	for _, b := range vblocks {
 		if len(b.Instrs) == 0 {
 			continue
 		}
@@ -1791,6 +1797,34 @@ func r7C10(c *Ctx) {
 					break
 				}
 				b = pb
+			}
+		}
+		// a separate early test of one of the deciding comparison's operands (`if stable == "" { return }`
+		// before `if hash == stable`) is part of the same decision
+		operands := map[string]bool{}
+		for in := range testIfs {
+			if bo, ok := in.(*ssa.If).Cond.(*ssa.BinOp); ok {
+				for _, v := range []ssa.Value{bo.X, bo.Y} {
+					if t := TermOf(v); t.Op != "const" {
+						operands[t.String()] = true
+					}
+				}
+			}
+		}
+		for _, b := range fn.Blocks {
+			if len(b.Instrs) == 0 {
+				continue
+			}
+			iff, ok := b.Instrs[len(b.Instrs)-1].(*ssa.If)
+			if !ok {
+				continue
+			}
+			if bo, ok := iff.Cond.(*ssa.BinOp); ok {
+				for _, v := range []ssa.Value{bo.X, bo.Y} {
+					if operands[TermOf(v).String()] {
+						testIfs[iff] = true
+					}
+				}
 			}
 		}
 		tested := func(in ssa.Instruction) bool { return testIfs[in] }
